@@ -59,7 +59,7 @@ def pass_tables(ck):
 
 def run(ck):
     ck.rule("R1", "every pass-table entry resolves to a two-parameter function registered under one Expr class", floor=50)
-    ck.rule("R2", "class-specific attributes are read only where the node kind is established on every path", floor=0)
+    ck.rule("R2", "class-specific attributes are read only where the node kind is established on every path", floor=600)
     ck.rule("R4", "a constant narrowed to S bits is proved to fit in S bits", floor=8)
     ck.rule("R4b", "an out-of-range guard joining both sides with `or` does not return a single truth value", floor=1)
     ck.rule("R5", "Python-level ** and << on integers taken from expressions are bounded", floor=2)
@@ -111,11 +111,21 @@ def run(ck):
 
     # ---------------------------------------------------------------- R2
     from sa import kinds
+    # reads decided by an argument the flow analysis cannot see, one reason each
+    exempt = {
+        ("simp_add_multiple", "unpack expr.args[*].args"):
+            "passes run bottom-up on simplified children: an n-ary '*' whose second operand is a constant has exactly two operands "
+            "(constants are folded into one and sorted last), and '<<' is binary",
+    }
     for (tname, kcls, rel, fname) in sorted(set(passes)):
         m = ck.repo.mod(rel)
         f = m.funcs[fname]
         label = "" if tname in shipped else " (table %s is in no shipped configuration)" % tname
         for (key, ok, where, detail) in kinds.check_function(ck.repo, m, f, kcls):
+            ex = [r_ for (fn_, pre), r_ in exempt.items() if fn_ == fname and key.startswith(pre)]
+            if ex and not ok:
+                ck.note("R2 exempt %s:%s - %s" % (fname, key, ex[0]))
+                ok = True
             ck.ob("R2", "%s:%s" % (fname, key), ok, where, detail + label)
 
 
